@@ -1,1 +1,1060 @@
-//! (to be filled)
+//! C19 — stream writes/reads transfer each value exactly once, in order.
+//!
+//! Real code: `RawStreamWriter::{write, write_buf, write_all, write_one, Drop}`,
+//! `StreamWriteOp`, `RawStreamWrite::{poll, cancel}`, `RawStreamReader::{read,
+//! next, collect, Drop}`, `StreamReadOp`, `RawStreamRead::{poll, cancel}`
+//! (stream_support.rs), `AbiBuffer::{new, abi_ptr_and_len, advance, into_vec,
+//! remaining, Drop}` (abi_buffer.rs), `ReturnCode::decode` (async_support.rs),
+//! all of `WaitableOperation` (waitable.rs), `Cleanup`.
+//!
+//! The mock host implements `StreamOps` directly (no vtable: calls are static
+//! and the element layout is a literal, which keeps CBMC's formula small).
+//! Contract (canonical ABI `stream.{read,write,cancel-*,drop-*}`), items are
+//! one byte wide:
+//!
+//! * `stream.write(h, ptr, n)` answers `COMPLETED(k)` with `1 <= k <= n`
+//!   (`k = 0` only for `n = 0`), `DROPPED(k)` with `0 <= k <= n` (the reader
+//!   went away after taking `k` items; every later write answers
+//!   `DROPPED(0)`), or `BLOCKED`; a blocked write later gets one event
+//!   `COMPLETED(k >= 1)` or `DROPPED(k)` while the end is registered;
+//!   `stream.cancel-write` (sync) answers `COMPLETED(k>=1)`, `DROPPED(k)` or
+//!   `CANCELLED(k)`, and traps unless a write is in progress and the end is
+//!   registered nowhere; the host copies the `k` items out of the buffer at
+//!   the moment it reports them (dangling-pointer check) and appends them to
+//!   its item log;
+//! * `stream.read` is the mirror image: the host stores `k` fresh items
+//!   (`0x40, 0x41, ...` in order) into the buffer when it reports them;
+//! * `drop-readable` / `drop-writable` trap while an operation is in
+//!   progress on that end or the end is still registered with a task.
+
+use crate::mock_task as mt;
+use core::alloc::Layout;
+use core::future::Future;
+use core::pin::{pin, Pin};
+use core::task::{Context, Poll, Waker};
+use wit_bindgen::rt::async_support::verif_hooks::{
+    abi_buffer_advance, abi_buffer_new, abi_buffer_ptr_and_len, return_code_decode,
+};
+use wit_bindgen::rt::async_support::{
+    AbiBuffer, RawStreamReader, RawStreamWriter, StreamOps, StreamResult,
+};
+
+const BLOCKED: u32 = 0xffff_ffff;
+const COMPLETED: u32 = 0;
+const DROPPED: u32 = 1;
+const CANCELLED: u32 = 2;
+
+/// Items the guest writes: `W0, W0+1, ...`; items the host produces: `R0, R0+1, ...`.
+const W0: u8 = 0x10;
+const R0: u8 = 0x40;
+const MAXI: usize = 4;
+
+struct Host {
+    /// unique first bytes: see mock_task::Globals
+    magic: u64,
+    wh: u32,
+    rh: u32,
+    // write side
+    write_in_progress: bool,
+    write_ptr: *const u8,
+    write_len: usize,
+    writes_started: u32,
+    log_n: usize, // items received so far; item i must be W0 + i
+    reader_dropped: bool,
+    cancel_write_calls: u32,
+    drop_writable_calls: u32,
+    last_k: u32,
+    // read side
+    read_in_progress: bool,
+    read_ptr: *mut u8,
+    read_cap: usize,
+    reads_started: u32,
+    produced_n: usize, // items handed to the guest so far
+    writer_dropped: bool,
+    cancel_read_calls: u32,
+    drop_readable_calls: u32,
+    // lifted-payload ledger, per item index (0..MAXI)
+    lowered: [u8; MAXI],
+    lifted: [u8; MAXI],
+    dealloc: [u8; MAXI],
+    rust_dropped: [u8; MAXI],
+    read_lifted: [u8; MAXI],
+    read_dropped: [u8; MAXI],
+}
+
+static mut H: Host = Host {
+    magic: 0x6331_395f_686f_7374,
+    wh: 0,
+    rh: 0,
+    write_in_progress: false,
+    write_ptr: core::ptr::null(),
+    write_len: 0,
+    writes_started: 0,
+    log_n: 0,
+    reader_dropped: false,
+    cancel_write_calls: 0,
+    drop_writable_calls: 0,
+    last_k: 0,
+    read_in_progress: false,
+    read_ptr: core::ptr::null_mut(),
+    read_cap: 0,
+    reads_started: 0,
+    produced_n: 0,
+    writer_dropped: false,
+    cancel_read_calls: 0,
+    drop_readable_calls: 0,
+    lowered: [0; MAXI],
+    lifted: [0; MAXI],
+    dealloc: [0; MAXI],
+    rust_dropped: [0; MAXI],
+    read_lifted: [0; MAXI],
+    read_dropped: [0; MAXI],
+};
+
+/// How many items a host answer may report, given `n` offered.
+fn any_k(min: usize, n: usize) -> usize {
+    let k: usize = kani::any();
+    kani::assume(k >= min && k <= n);
+    k
+}
+
+/// The host takes `k` items out of the write buffer (unrolled: k <= 3).
+unsafe fn host_take(k: usize) {
+    assert!(k <= H.write_len && k <= 3);
+    let p = H.write_ptr;
+    if k > 0 {
+        assert!(*p == W0 + H.log_n as u8, "item reached the host out of order, twice, or not at all");
+    }
+    if k > 1 {
+        assert!(*p.add(1) == W0 + H.log_n as u8 + 1, "item reached the host out of order, twice, or not at all");
+    }
+    if k > 2 {
+        assert!(*p.add(2) == W0 + H.log_n as u8 + 2, "item reached the host out of order, twice, or not at all");
+    }
+    H.log_n += k;
+    H.last_k = k as u32;
+}
+
+/// The host stores `k` fresh items into the read buffer.
+unsafe fn host_give(k: usize) {
+    assert!(k <= H.read_cap && k <= 3);
+    let p = H.read_ptr;
+    if k > 0 {
+        *p = R0 + H.produced_n as u8;
+    }
+    if k > 1 {
+        *p.add(1) = R0 + H.produced_n as u8 + 1;
+    }
+    if k > 2 {
+        *p.add(2) = R0 + H.produced_n as u8 + 2;
+    }
+    H.produced_n += k;
+    H.last_k = k as u32;
+}
+
+unsafe fn h_new() -> u64 {
+    let w: u32 = kani::any();
+    let r: u32 = kani::any();
+    kani::assume(w >= 1 && w < (1 << 28) && r >= 1 && r < (1 << 28) && r != w);
+    H.wh = w;
+    H.rh = r;
+    ((w as u64) << 32) | (r as u64)
+}
+
+unsafe fn h_start_write(h: u32, ptr: *const u8, n: usize) -> u32 {
+    assert!(h == H.wh, "stream.write on a handle that is not the writable end");
+    assert!(H.drop_writable_calls == 0, "stream.write after drop-writable");
+    assert!(!H.write_in_progress, "stream.write while a write is in progress (host traps)");
+    assert!(n < (1 << 28));
+    H.writes_started += 1;
+    H.write_ptr = ptr;
+    H.write_len = n;
+    mt::G.expect_waitable = h;
+    mt::G.expect_ptr = core::ptr::null_mut();
+    if H.reader_dropped {
+        H.last_k = 0;
+        return DROPPED;
+    }
+    let kind: u32 = kani::any();
+    kani::assume(kind == COMPLETED || kind == DROPPED || kind == BLOCKED);
+    if kind == BLOCKED {
+        H.write_in_progress = true;
+        return BLOCKED;
+    }
+    let k = if kind == COMPLETED { any_k(if n == 0 { 0 } else { 1 }, n) } else { any_k(0, n) };
+    host_take(k);
+    if kind == DROPPED {
+        H.reader_dropped = true;
+    }
+    kind | ((k as u32) << 4)
+}
+
+unsafe fn h_cancel_write(h: u32) -> u32 {
+    assert!(h == H.wh);
+    assert!(H.write_in_progress, "stream.cancel-write without a write in progress (host traps)");
+    assert!(!mt::registered_anywhere(h), "stream.cancel-write while the end is still registered with a task");
+    H.cancel_write_calls += 1;
+    H.write_in_progress = false;
+    let kind: u32 = kani::any();
+    kani::assume(kind == COMPLETED || kind == DROPPED || kind == CANCELLED);
+    let n = H.write_len;
+    let k = if kind == COMPLETED { any_k(if n == 0 { 0 } else { 1 }, n) } else { any_k(0, n) };
+    host_take(k);
+    if kind == DROPPED {
+        H.reader_dropped = true;
+    }
+    kind | ((k as u32) << 4)
+}
+
+unsafe fn h_drop_writable(h: u32) {
+    assert!(h == H.wh);
+    assert!(!H.write_in_progress, "stream.drop-writable while a write is in progress (host traps)");
+    assert!(!mt::registered_anywhere(h), "stream.drop-writable while the end is still registered with a task");
+    assert!(H.drop_writable_calls == 0, "stream.drop-writable twice");
+    H.drop_writable_calls += 1;
+}
+
+unsafe fn h_start_read(h: u32, ptr: *mut u8, n: usize) -> u32 {
+    assert!(h == H.rh, "stream.read on a handle that is not the readable end");
+    assert!(H.drop_readable_calls == 0, "stream.read after drop-readable");
+    assert!(!H.read_in_progress, "stream.read while a read is in progress (host traps)");
+    H.reads_started += 1;
+    H.read_ptr = ptr;
+    H.read_cap = n;
+    mt::G.expect_waitable = h;
+    mt::G.expect_ptr = core::ptr::null_mut();
+    if H.writer_dropped {
+        H.last_k = 0;
+        return DROPPED;
+    }
+    let kind: u32 = kani::any();
+    kani::assume(kind == COMPLETED || kind == DROPPED || kind == BLOCKED);
+    if kind == BLOCKED {
+        H.read_in_progress = true;
+        return BLOCKED;
+    }
+    let k = if kind == COMPLETED { any_k(if n == 0 { 0 } else { 1 }, n) } else { any_k(0, n) };
+    host_give(k);
+    if kind == DROPPED {
+        H.writer_dropped = true;
+    }
+    kind | ((k as u32) << 4)
+}
+
+unsafe fn h_cancel_read(h: u32) -> u32 {
+    assert!(h == H.rh);
+    assert!(H.read_in_progress, "stream.cancel-read without a read in progress (host traps)");
+    assert!(!mt::registered_anywhere(h), "stream.cancel-read while the end is still registered with a task");
+    H.cancel_read_calls += 1;
+    H.read_in_progress = false;
+    let kind: u32 = kani::any();
+    kani::assume(kind == COMPLETED || kind == DROPPED || kind == CANCELLED);
+    let n = H.read_cap;
+    let k = if kind == COMPLETED { any_k(if n == 0 { 0 } else { 1 }, n) } else { any_k(0, n) };
+    host_give(k);
+    if kind == DROPPED {
+        H.writer_dropped = true;
+    }
+    kind | ((k as u32) << 4)
+}
+
+unsafe fn h_drop_readable(h: u32) {
+    assert!(h == H.rh);
+    assert!(!H.read_in_progress, "stream.drop-readable while a read is in progress (host traps)");
+    assert!(!mt::registered_anywhere(h), "stream.drop-readable while the end is still registered with a task");
+    assert!(H.drop_readable_calls == 0, "stream.drop-readable twice");
+    H.drop_readable_calls += 1;
+}
+
+unsafe fn write_event() {
+    assert!(H.write_in_progress && mt::L[0].reg_set, "harness: no write event possible here");
+    H.write_in_progress = false;
+    let kind: u32 = kani::any();
+    kani::assume(kind == COMPLETED || kind == DROPPED);
+    let n = H.write_len;
+    let k = if kind == COMPLETED { any_k(if n == 0 { 0 } else { 1 }, n) } else { any_k(0, n) };
+    host_take(k);
+    if kind == DROPPED {
+        H.reader_dropped = true;
+    }
+    mt::deliver(0, kind | ((k as u32) << 4));
+}
+
+unsafe fn read_event() {
+    assert!(H.read_in_progress && mt::L[0].reg_set, "harness: no read event possible here");
+    H.read_in_progress = false;
+    let kind: u32 = kani::any();
+    kani::assume(kind == COMPLETED || kind == DROPPED);
+    let n = H.read_cap;
+    let k = if kind == COMPLETED { any_k(if n == 0 { 0 } else { 1 }, n) } else { any_k(0, n) };
+    host_give(k);
+    if kind == DROPPED {
+        H.writer_dropped = true;
+    }
+    mt::deliver(0, kind | ((k as u32) << 4));
+}
+
+// ---- payload classes -------------------------------------------------------------
+
+/// Canonical payload: `u8`, native layout == canonical layout, no lists.
+#[derive(Clone, Copy)]
+struct OpsU8;
+
+unsafe impl StreamOps for OpsU8 {
+    type Payload = u8;
+    fn new(&mut self) -> u64 {
+        unsafe { h_new() }
+    }
+    fn elem_layout(&self) -> Layout {
+        Layout::new::<u8>()
+    }
+    fn native_abi_matches_canonical_abi(&self) -> bool {
+        true
+    }
+    fn contains_lists(&self) -> bool {
+        false
+    }
+    unsafe fn lower(&mut self, _: u8, _: *mut u8) {
+        assert!(false, "lower called for a canonical payload");
+    }
+    unsafe fn dealloc_lists(&mut self, _: *mut u8) {
+        assert!(false, "dealloc_lists called for a payload without lists");
+    }
+    unsafe fn lift(&mut self, _: *mut u8) -> u8 {
+        assert!(false, "lift called for a canonical payload");
+        0
+    }
+    unsafe fn start_write(&mut self, s: u32, p: *const u8, n: usize) -> u32 {
+        h_start_write(s, p, n)
+    }
+    unsafe fn start_read(&mut self, s: u32, p: *mut u8, n: usize) -> u32 {
+        h_start_read(s, p, n)
+    }
+    unsafe fn cancel_read(&mut self, s: u32) -> u32 {
+        h_cancel_read(s)
+    }
+    unsafe fn cancel_write(&mut self, s: u32) -> u32 {
+        h_cancel_write(s)
+    }
+    unsafe fn drop_readable(&mut self, s: u32) {
+        h_drop_readable(s)
+    }
+    unsafe fn drop_writable(&mut self, s: u32) {
+        h_drop_writable(s)
+    }
+}
+
+/// Lifted payload with lists: an owning Rust value `Val(b)` whose canonical
+/// form is the byte `b`; ownership is tracked per item.
+struct Val(u8);
+impl Drop for Val {
+    fn drop(&mut self) {
+        unsafe {
+            if self.0 >= R0 {
+                H.read_dropped[(self.0 - R0) as usize] += 1;
+            } else {
+                H.rust_dropped[(self.0 - W0) as usize] += 1;
+            }
+        }
+    }
+}
+
+#[derive(Clone, Copy)]
+struct OpsVal;
+
+unsafe impl StreamOps for OpsVal {
+    type Payload = Val;
+    fn new(&mut self) -> u64 {
+        unsafe { h_new() }
+    }
+    fn elem_layout(&self) -> Layout {
+        Layout::new::<u8>()
+    }
+    fn native_abi_matches_canonical_abi(&self) -> bool {
+        false
+    }
+    fn contains_lists(&self) -> bool {
+        true
+    }
+    unsafe fn lower(&mut self, v: Val, dst: *mut u8) {
+        let b = v.0;
+        core::mem::forget(v);
+        H.lowered[(b - W0) as usize] += 1;
+        *dst = b;
+    }
+    unsafe fn dealloc_lists(&mut self, dst: *mut u8) {
+        let b = *dst;
+        assert!(b >= W0 && ((b - W0) as usize) < H.log_n, "lists of an item released although the host did not take it");
+        H.dealloc[(b - W0) as usize] += 1;
+    }
+    unsafe fn lift(&mut self, src: *mut u8) -> Val {
+        let b = *src;
+        if b >= R0 {
+            H.read_lifted[(b - R0) as usize] += 1;
+        } else {
+            H.lifted[(b - W0) as usize] += 1;
+        }
+        Val(b)
+    }
+    unsafe fn start_write(&mut self, s: u32, p: *const u8, n: usize) -> u32 {
+        h_start_write(s, p, n)
+    }
+    unsafe fn start_read(&mut self, s: u32, p: *mut u8, n: usize) -> u32 {
+        h_start_read(s, p, n)
+    }
+    unsafe fn cancel_read(&mut self, s: u32) -> u32 {
+        h_cancel_read(s)
+    }
+    unsafe fn cancel_write(&mut self, s: u32) -> u32 {
+        h_cancel_write(s)
+    }
+    unsafe fn drop_readable(&mut self, s: u32) {
+        h_drop_readable(s)
+    }
+    unsafe fn drop_writable(&mut self, s: u32) {
+        h_drop_writable(s)
+    }
+}
+
+/// Payload abstraction for the generic drivers below.
+trait Item: Sized + 'static {
+    type Ops: StreamOps<Payload = Self> + Copy;
+    const OPS: Self::Ops;
+    const LIFTED: bool;
+    fn make(b: u8) -> Self;
+    /// Take a value back into the harness: check its identity, release it without running `Drop`.
+    fn check_and_forget(self, b: u8);
+}
+impl Item for u8 {
+    type Ops = OpsU8;
+    const OPS: OpsU8 = OpsU8;
+    const LIFTED: bool = false;
+    fn make(b: u8) -> u8 {
+        b
+    }
+    fn check_and_forget(self, b: u8) {
+        assert!(self == b, "value handed back is not the expected item");
+    }
+}
+impl Item for Val {
+    type Ops = OpsVal;
+    const OPS: OpsVal = OpsVal;
+    const LIFTED: bool = true;
+    fn make(b: u8) -> Val {
+        Val(b)
+    }
+    fn check_and_forget(self, b: u8) {
+        assert!(self.0 == b, "value handed back is not the expected item");
+        core::mem::forget(self);
+    }
+}
+
+/// `vec![make(W0), make(W0+1), ...]` of length `LEN` (<= 3) with exact capacity.
+fn items<T: Item, const LEN: usize>() -> Vec<T> {
+    let mut v = Vec::with_capacity(LEN);
+    if LEN > 0 {
+        v.push(T::make(W0));
+    }
+    if LEN > 1 {
+        v.push(T::make(W0 + 1));
+    }
+    if LEN > 2 {
+        v.push(T::make(W0 + 2));
+    }
+    v
+}
+
+/// Takes the vector a write handed back: it must hold exactly the items
+/// `from..LEN`, in order.  Returns how many came back.
+unsafe fn take_back_rest<T: Item>(mut v: Vec<T>, from: usize, len: usize) -> usize {
+    let n = v.len();
+    assert!(n == len - from, "wrong number of untransferred values handed back");
+    // pop from the back: item (len-1), (len-2), ...
+    if n > 2 {
+        v.pop().unwrap().check_and_forget(W0 + (from + 2) as u8);
+    }
+    if n > 1 {
+        v.pop().unwrap().check_and_forget(W0 + (from + 1) as u8);
+    }
+    if n > 0 {
+        v.pop().unwrap().check_and_forget(W0 + from as u8);
+    }
+    n
+}
+
+unsafe fn install_task(t1: &mut mt::wasip3_task, t2: &mut mt::wasip3_task_v2) {
+    let task: *mut mt::wasip3_task = if kani::any() { t1 } else { (t2 as *mut mt::wasip3_task_v2).cast() };
+    mt::G.cur = task;
+    mt::G.clone_distinct = false;
+}
+
+fn pending_is_registered() {
+    unsafe {
+        assert!(mt::L[0].reg_set, "pending operation is not registered with the task");
+    }
+}
+
+// ---- ReturnCode::decode ------------------------------------------------------------
+
+/// All 2^32 inputs that are valid encodings: `BLOCKED`, or `(amount << 4) | tag`
+/// with `tag in {COMPLETED, DROPPED, CANCELLED}`.
+#[kani::proof]
+fn c19_return_code_valid() {
+    let v: u32 = kani::any();
+    kani::assume(v == BLOCKED || (v & 0xf) <= CANCELLED);
+    let (tag, amt) = return_code_decode(v);
+    if v == BLOCKED {
+        assert!(tag == BLOCKED && amt == 0);
+    } else {
+        assert!(tag == (v & 0xf), "wrong result kind");
+        assert!(amt == (v >> 4), "wrong item count");
+        assert!(((amt << 4) | tag) == v, "decode is not the inverse of the canonical encoding");
+    }
+    kani::cover!(v == BLOCKED);
+    kani::cover!(tag == DROPPED && amt == (1 << 28) - 1);
+    kani::cover!(tag == CANCELLED && amt == 0);
+}
+
+/// Every other input is rejected (panic), never mistaken for a result.
+#[kani::proof]
+#[kani::should_panic]
+fn c19_return_code_invalid_traps() {
+    let v: u32 = kani::any();
+    kani::assume(v != BLOCKED && (v & 0xf) > CANCELLED);
+    let _ = return_code_decode(v);
+    // only reachable if `decode` returned; the runner treats a failure of this
+    // particular check as a violation (`should_panic` alone would be satisfied
+    // by a single panicking input)
+    assert!(false, "INVALID-CODE-ACCEPTED: ReturnCode::decode returned for an invalid code");
+}
+
+// ---- AbiBuffer one-step harnesses ---------------------------------------------------
+
+/// From the state reached by `new(items[0..LEN])` + `advance(a)` (any `a <=
+/// LEN`, i.e. every valid (cursor, len) state), one more `advance(b)`,
+/// `abi_ptr_and_len`, `remaining` and `into_vec`.
+unsafe fn abibuf<T: Item, const LEN: usize>() {
+    let v: Vec<T> = items::<T, LEN>();
+    let base = v.as_ptr() as *const u8;
+    let mut buf: AbiBuffer<T::Ops> = abi_buffer_new(v, T::OPS);
+    let (p0, n0) = abi_buffer_ptr_and_len(&buf);
+    assert!(n0 == LEN && buf.remaining() == LEN);
+    if !T::LIFTED {
+        assert!(p0 == base || LEN == 0, "canonical payload: the ABI pointer is the vector's own storage");
+    }
+    // pretend the host has taken everything we advance over (dealloc_lists checks it)
+    let a = any_k(0, LEN);
+    H.log_n = a;
+    abi_buffer_advance(&mut buf, a);
+    assert!(buf.remaining() == LEN - a);
+    let (p1, n1) = abi_buffer_ptr_and_len(&buf);
+    assert!(n1 == LEN - a);
+    if LEN > 0 {
+        assert!(p1 == p0.add(a), "ABI pointer must move by one element per advanced item");
+    }
+    if n1 > 0 {
+        assert!(*p1 == W0 + a as u8, "ABI pointer does not point at the first unsent item");
+    }
+    let b = any_k(0, LEN - a);
+    H.log_n = a + b;
+    abi_buffer_advance(&mut buf, b);
+    assert!(buf.remaining() == LEN - a - b);
+    let (p2, n2) = abi_buffer_ptr_and_len(&buf);
+    assert!(n2 == LEN - a - b);
+    if n2 > 0 {
+        assert!(*p2 == W0 + (a + b) as u8);
+    }
+    let keep: bool = kani::any();
+    let mut back = 0;
+    if keep {
+        back = take_back_rest(buf.into_vec(), a + b, LEN);
+    } else {
+        drop(buf); // untransferred values are dropped with the buffer
+    }
+    ledger_write::<T>(LEN, a + b, back);
+    kani::cover!(a + b == LEN, "advanced to the end");
+    kani::cover!(a > 0 && b > 0 && a + b < LEN || LEN < 3, "two partial advances");
+    kani::cover!(keep && back == LEN, "nothing sent, everything handed back");
+    kani::cover!(!keep && a + b < LEN || LEN == 0, "untransferred values dropped with the buffer");
+}
+
+/// Ownership of the `len` written items once the write side is finished:
+/// items `0..sent` went to the host, `back` items (the last ones) are held by
+/// the harness, the rest was dropped.
+unsafe fn ledger_write<T: Item>(len: usize, sent: usize, back: usize) {
+    assert!(sent <= len && back <= len - sent);
+    let mut i = 0;
+    while i < len {
+        if T::LIFTED {
+            assert!(H.lowered[i] == 1, "every item is lowered exactly once");
+            if i < sent {
+                assert!(H.dealloc[i] == 1 && H.lifted[i] == 0 && H.rust_dropped[i] == 0, "a transferred item's lists are released exactly once and it is not lifted back");
+            } else {
+                assert!(H.dealloc[i] == 0 && H.lifted[i] == 1, "an untransferred item is lifted back exactly once and its lists are not released");
+                let held = if i >= len - back { 1 } else { 0 };
+                assert!(H.rust_dropped[i] + held == 1, "an untransferred item is handed back or dropped, exactly once");
+            }
+        }
+        i += 1;
+    }
+}
+
+macro_rules! c19_abibuf {
+    ($name:ident, $t:ty, $len:expr) => {
+        #[kani::proof]
+        #[kani::unwind(5)]
+        fn $name() {
+            unsafe { abibuf::<$t, $len>() }
+        }
+    };
+}
+c19_abibuf!(c19_abibuf_u8_len0, u8, 0);
+c19_abibuf!(c19_abibuf_u8_len1, u8, 1);
+c19_abibuf!(c19_abibuf_u8_len3, u8, 3);
+c19_abibuf!(c19_abibuf_val_len0, Val, 0);
+c19_abibuf!(c19_abibuf_val_len1, Val, 1);
+c19_abibuf!(c19_abibuf_val_len3, Val, 3);
+c19_abibuf!(c19_deep_abibuf_u8_len2, u8, 2);
+c19_abibuf!(c19_deep_abibuf_val_len2, Val, 2);
+
+// ---- single write -----------------------------------------------------------------
+
+#[derive(Clone, Copy, PartialEq)]
+enum End {
+    None,
+    Complete,
+    Dropped,
+    Cancelled,
+}
+
+/// Handles the `(StreamResult, AbiBuffer)` a write resolved to: the count must
+/// be the host's, the buffer must hold exactly the untransferred items.
+unsafe fn write_result<T: Item>(res: StreamResult, buf: AbiBuffer<T::Ops>, before: usize, len: usize, back: &mut usize) -> End {
+    let sent_now = H.log_n - before;
+    let end = match res {
+        StreamResult::Complete(n) => {
+            assert!(n == sent_now, "write reports a different count than the host transferred");
+            End::Complete
+        }
+        StreamResult::Dropped => {
+            assert!(sent_now == 0 && H.reader_dropped, "write reports 'dropped' but the host did not say so");
+            End::Dropped
+        }
+        StreamResult::Cancelled => {
+            assert!(sent_now == 0, "write reports 'cancelled, nothing sent' but the host took items");
+            End::Cancelled
+        }
+    };
+    assert!(buf.remaining() == len - H.log_n, "buffer does not hold exactly the untransferred items");
+    *back = take_back_rest(buf.into_vec(), H.log_n, len);
+    end
+}
+
+macro_rules! wsteps {
+    ($t:ty, $f:ident, $cx:ident, $len:expr, $back:ident, $end:ident;) => {};
+    ($t:ty, $f:ident, $cx:ident, $len:expr, $back:ident, $end:ident; P $($rest:tt)*) => {
+        match $f.as_mut().poll(&mut $cx) {
+            Poll::Ready((res, buf)) => {
+                $end = write_result::<$t>(res, buf, 0, $len, &mut $back);
+            }
+            Poll::Pending => {
+                pending_is_registered();
+                wsteps!($t, $f, $cx, $len, $back, $end; $($rest)*);
+            }
+        }
+    };
+    ($t:ty, $f:ident, $cx:ident, $len:expr, $back:ident, $end:ident; E $($rest:tt)*) => {
+        write_event();
+        wsteps!($t, $f, $cx, $len, $back, $end; $($rest)*);
+    };
+    ($t:ty, $f:ident, $cx:ident, $len:expr, $back:ident, $end:ident; C $($rest:tt)*) => {
+        let (res, buf) = $f.as_mut().cancel();
+        $end = write_result::<$t>(res, buf, 0, $len, &mut $back);
+    };
+}
+
+unsafe fn finish_write<T: Item>(len: usize, back: usize) {
+    mt::G.op_alive = false;
+    mt::assert_quiescent();
+    assert!(!H.write_in_progress, "write future gone but the host still has a write in progress");
+    assert!(H.drop_writable_calls == 1, "writable end must be dropped exactly once");
+    assert!(H.log_n <= len);
+    ledger_write::<T>(len, H.log_n, back);
+}
+
+macro_rules! c19w {
+    ($name:ident, $t:ty, $len:expr, [$($script:tt)*], $covers:expr) => {
+        #[kani::proof]
+        #[kani::unwind(5)]
+        #[kani::stub(wit_bindgen::rt::async_support::cabi::wasip3_task_set, crate::mock_task::stub_task_set)]
+        fn $name() {
+            unsafe {
+                let mut t1 = mt::new_v1_a();
+                let mut t2 = mt::new_v2_a();
+                install_task(&mut t1, &mut t2);
+                let mut cx = Context::from_waker(Waker::noop());
+                let handles = h_new();
+                let mut tx = RawStreamWriter::new((handles >> 32) as u32, <$t as Item>::OPS);
+                let mut back = 0usize;
+                #[allow(unused_assignments, unused_mut)]
+                let mut end = End::None;
+                {
+                    #[allow(unused_mut)]
+                    let mut f = pin!(tx.write(items::<$t, $len>()));
+                    wsteps!($t, f, cx, $len, back, end; $($script)*);
+                    // dropped here: mid-flight unless it resolved
+                }
+                drop(tx);
+                finish_write::<$t>($len, back);
+                let _ = end;
+                let f: fn() = $covers;
+                f();
+            }
+        }
+    };
+}
+
+fn cw_pc() {
+    unsafe {
+        kani::cover!(H.cancel_write_calls == 0 && H.log_n == 3, "everything written at once");
+        kani::cover!(H.cancel_write_calls == 0 && H.log_n == 1 && !H.reader_dropped, "partial write");
+        kani::cover!(H.cancel_write_calls == 0 && H.log_n == 2 && H.reader_dropped, "reader dropped after a partial transfer");
+        kani::cover!(H.cancel_write_calls == 1 && H.log_n == 0 && !H.reader_dropped, "cancel won, nothing sent");
+        kani::cover!(H.cancel_write_calls == 1 && H.log_n == 2, "cancel lost or partial: two items went through");
+    }
+}
+fn cw_pec() {
+    unsafe {
+        kani::cover!(H.cancel_write_calls == 0 && mt::L[0].n_delivered == 1 && H.log_n == 2, "cancel() with a partial completion already queued");
+        kani::cover!(H.cancel_write_calls == 0 && mt::L[0].n_delivered == 1 && H.reader_dropped && H.log_n == 0, "cancel() with a reader-dropped event already queued");
+    }
+}
+fn cw_pep() {
+    unsafe {
+        kani::cover!(mt::L[0].n_delivered == 1 && H.log_n == 3, "blocked write completed by an event");
+        kani::cover!(mt::L[0].n_delivered == 1 && H.log_n == 1 && H.reader_dropped, "blocked write: one item, then the reader went away");
+    }
+}
+fn cw_pd() {
+    unsafe {
+        kani::cover!(H.cancel_write_calls == 1 && H.log_n == 1, "dropped mid-flight, one item had gone through: the other two are dropped");
+        kani::cover!(H.cancel_write_calls == 1 && H.log_n == 0, "dropped mid-flight, cancelled: all values dropped");
+    }
+}
+fn cw_ped() {
+    unsafe {
+        kani::cover!(H.cancel_write_calls == 0 && mt::L[0].n_delivered == 1 && H.log_n == 2, "dropped with a partial completion queued");
+    }
+}
+fn cw_len0() {
+    unsafe {
+        kani::cover!(H.writes_started == 1 && H.log_n == 0, "zero-length write");
+    }
+}
+
+c19w!(c19_write_u8_pc, u8, 3, [P C], cw_pc);
+c19w!(c19_write_u8_pec, u8, 3, [P E C], cw_pec);
+c19w!(c19_write_u8_pep, u8, 3, [P E P], cw_pep);
+c19w!(c19_write_u8_pd, u8, 3, [P], cw_pd);
+c19w!(c19_write_u8_ped, u8, 3, [P E], cw_ped);
+c19w!(c19_write_u8_len0_pc, u8, 0, [P C], cw_len0);
+c19w!(c19_write_val_pc, Val, 3, [P C], cw_pc);
+c19w!(c19_write_val_pep, Val, 3, [P E P], cw_pep);
+c19w!(c19_write_val_pd, Val, 3, [P], cw_pd);
+c19w!(c19_deep_write_val_pec, Val, 3, [P E C], cw_pec);
+c19w!(c19_deep_write_val_ped, Val, 3, [P E], cw_ped);
+
+// ---- write_all / write_one: several rendezvous -------------------------------------
+
+/// Drives an `async fn` of the writer: poll, and whenever it is pending let
+/// the host resolve the blocked write, up to `ROUNDS` times.
+macro_rules! drive {
+    ($f:ident, $cx:ident, $out:ident, $event:ident; ) => {};
+    ($f:ident, $cx:ident, $out:ident, $event:ident; R $($rest:tt)*) => {
+        match $f.as_mut().poll(&mut $cx) {
+            Poll::Ready(v) => $out = Some(v),
+            Poll::Pending => {
+                pending_is_registered();
+                $event();
+                drive!($f, $cx, $out, $event; $($rest)*);
+            }
+        }
+    };
+}
+
+macro_rules! c19wall {
+    ($name:ident, $t:ty, $len:expr, [$($rounds:tt)*]) => {
+        #[kani::proof]
+        #[kani::unwind(5)]
+        #[kani::stub(wit_bindgen::rt::async_support::cabi::wasip3_task_set, crate::mock_task::stub_task_set)]
+        fn $name() {
+            unsafe {
+                let mut t1 = mt::new_v1_a();
+                let mut t2 = mt::new_v2_a();
+                install_task(&mut t1, &mut t2);
+                let mut cx = Context::from_waker(Waker::noop());
+                let handles = h_new();
+                let mut tx = RawStreamWriter::new((handles >> 32) as u32, <$t as Item>::OPS);
+                let mut out: Option<Vec<$t>> = None;
+                {
+                    let mut f = pin!(tx.write_all(items::<$t, $len>()));
+                    drive!(f, cx, out, write_event; $($rounds)*);
+                    // a last poll after the last event
+                    if out.is_none() {
+                        if let Poll::Ready(v) = f.as_mut().poll(&mut cx) {
+                            out = Some(v);
+                        }
+                    }
+                    // dropped here (mid-flight if the bound on rendezvous was hit)
+                }
+                drop(tx);
+                let mut back = 0;
+                if let Some(v) = out {
+                    // write_all returns exactly the values that were not sent, and
+                    // only when the reader went away
+                    assert!(v.len() == $len - H.log_n);
+                    assert!(v.is_empty() || H.reader_dropped, "write_all gave up although the reader is still there");
+                    back = take_back_rest(v, H.log_n, $len);
+                }
+                finish_write::<$t>($len, back);
+                kani::cover!(back == 0 && H.log_n == $len && H.writes_started == 3, "all items sent one by one over three rendezvous");
+                kani::cover!(back == 2 && H.reader_dropped, "reader dropped after the first item: two values handed back");
+                kani::cover!(H.writes_started == 2 && H.log_n == $len && mt::L[0].n_delivered == 2, "two blocked writes completed by events");
+            }
+        }
+    };
+}
+c19wall!(c19_write_all_u8, u8, 3, [R R R]);
+c19wall!(c19_deep_write_all_val, Val, 3, [R R R]);
+
+#[kani::proof]
+#[kani::unwind(5)]
+#[kani::stub(wit_bindgen::rt::async_support::cabi::wasip3_task_set, crate::mock_task::stub_task_set)]
+fn c19_write_one_u8() {
+    unsafe {
+        let mut t1 = mt::new_v1_a();
+        let mut t2 = mt::new_v2_a();
+        install_task(&mut t1, &mut t2);
+        let mut cx = Context::from_waker(Waker::noop());
+        let handles = h_new();
+        let mut tx = RawStreamWriter::new((handles >> 32) as u32, OpsU8);
+        let mut out: Option<Option<u8>> = None;
+        {
+            let mut f = pin!(tx.write_one(W0));
+            drive!(f, cx, out, write_event; R);
+            if out.is_none() {
+                if let Poll::Ready(v) = f.as_mut().poll(&mut cx) {
+                    out = Some(v);
+                }
+            }
+        }
+        drop(tx);
+        if let Some(r) = out {
+            match r {
+                None => assert!(H.log_n == 1, "write_one says sent, the host has nothing"),
+                Some(v) => assert!(v == W0 && H.log_n == 0 && H.reader_dropped, "write_one hands the value back only when the reader is gone"),
+            }
+        }
+        finish_write::<u8>(1, 0);
+        kani::cover!(out == Some(None) && mt::L[0].n_delivered == 1, "sent after blocking");
+        kani::cover!(out == Some(Some(W0)), "reader gone: value handed back");
+    }
+}
+
+// ---- single read ------------------------------------------------------------------
+
+/// Takes the vector a read handed back: it must hold exactly the items the
+/// host produced (`R0..`), in order.
+unsafe fn take_read<T: Item>(mut v: Vec<T>, cap: usize) -> usize {
+    let n = v.len();
+    assert!(n == H.produced_n, "read hands back a different number of items than the host produced");
+    assert!(v.capacity() >= cap);
+    if n > 2 {
+        v.pop().unwrap().check_and_forget(R0 + 2);
+    }
+    if n > 1 {
+        v.pop().unwrap().check_and_forget(R0 + 1);
+    }
+    if n > 0 {
+        v.pop().unwrap().check_and_forget(R0);
+    }
+    n
+}
+
+unsafe fn read_result<T: Item>(res: StreamResult, v: Vec<T>, cap: usize, held: &mut usize) -> End {
+    let end = match res {
+        StreamResult::Complete(n) => {
+            assert!(n == H.produced_n && n == H.last_k as usize, "read reports a different count than the host transferred");
+            End::Complete
+        }
+        StreamResult::Dropped => {
+            assert!(H.produced_n == 0 && H.writer_dropped, "read reports 'dropped' but the host did not say so");
+            End::Dropped
+        }
+        StreamResult::Cancelled => {
+            assert!(H.produced_n == 0, "read reports 'cancelled, nothing read' but the host stored items");
+            End::Cancelled
+        }
+    };
+    *held = take_read(v, cap);
+    end
+}
+
+macro_rules! rsteps {
+    ($t:ty, $f:ident, $cx:ident, $cap:expr, $held:ident, $end:ident;) => {};
+    ($t:ty, $f:ident, $cx:ident, $cap:expr, $held:ident, $end:ident; P $($rest:tt)*) => {
+        match $f.as_mut().poll(&mut $cx) {
+            Poll::Ready((res, v)) => {
+                $end = read_result::<$t>(res, v, $cap, &mut $held);
+            }
+            Poll::Pending => {
+                pending_is_registered();
+                rsteps!($t, $f, $cx, $cap, $held, $end; $($rest)*);
+            }
+        }
+    };
+    ($t:ty, $f:ident, $cx:ident, $cap:expr, $held:ident, $end:ident; E $($rest:tt)*) => {
+        read_event();
+        rsteps!($t, $f, $cx, $cap, $held, $end; $($rest)*);
+    };
+    ($t:ty, $f:ident, $cx:ident, $cap:expr, $held:ident, $end:ident; C $($rest:tt)*) => {
+        let (res, v) = $f.as_mut().cancel();
+        $end = read_result::<$t>(res, v, $cap, &mut $held);
+    };
+}
+
+/// Ownership of the items the host produced: each is lifted exactly once (for
+/// a lifted payload) and then held by the harness or dropped exactly once.
+unsafe fn finish_read<T: Item>(held: usize) {
+    mt::G.op_alive = false;
+    mt::assert_quiescent();
+    assert!(!H.read_in_progress, "read future gone but the host still has a read in progress");
+    assert!(H.drop_readable_calls == 1, "readable end must be dropped exactly once");
+    assert!(held <= H.produced_n && H.produced_n <= 3);
+    if T::LIFTED {
+        let mut i = 0;
+        while i < 3 {
+            if i < H.produced_n {
+                assert!(H.read_lifted[i] == 1, "an item the host stored must be lifted exactly once");
+                let h = if i < held { 1 } else { 0 };
+                assert!(H.read_dropped[i] + h == 1, "a received item is handed to the caller or dropped, exactly once");
+            } else {
+                assert!(H.read_lifted[i] == 0 && H.read_dropped[i] == 0, "an item the host never stored was lifted");
+            }
+            i += 1;
+        }
+    } else {
+        // canonical payload dropped with the future: nothing to release; items
+        // the caller got are exactly the host's (checked in take_read)
+    }
+}
+
+macro_rules! c19r {
+    ($name:ident, $t:ty, $cap:expr, [$($script:tt)*], $covers:expr) => {
+        #[kani::proof]
+        #[kani::unwind(5)]
+        #[kani::stub(wit_bindgen::rt::async_support::cabi::wasip3_task_set, crate::mock_task::stub_task_set)]
+        fn $name() {
+            unsafe {
+                let mut t1 = mt::new_v1_a();
+                let mut t2 = mt::new_v2_a();
+                install_task(&mut t1, &mut t2);
+                let mut cx = Context::from_waker(Waker::noop());
+                let handles = h_new();
+                let mut rx = RawStreamReader::new(handles as u32, <$t as Item>::OPS);
+                let mut held = 0usize;
+                #[allow(unused_assignments, unused_mut)]
+                let mut end = End::None;
+                {
+                    #[allow(unused_mut)]
+                    let mut f = pin!(rx.read(Vec::<$t>::with_capacity($cap)));
+                    rsteps!($t, f, cx, $cap, held, end; $($script)*);
+                }
+                drop(rx);
+                finish_read::<$t>(held);
+                let _ = end;
+                let f: fn() = $covers;
+                f();
+            }
+        }
+    };
+}
+
+fn cr_pc() {
+    unsafe {
+        kani::cover!(H.cancel_read_calls == 0 && H.produced_n == 3, "buffer filled at once");
+        kani::cover!(H.cancel_read_calls == 0 && H.produced_n == 1 && !H.writer_dropped, "partial read");
+        kani::cover!(H.cancel_read_calls == 0 && H.produced_n == 2 && H.writer_dropped, "writer dropped after a partial transfer");
+        kani::cover!(H.cancel_read_calls == 1 && H.produced_n == 0 && !H.writer_dropped, "cancel won, nothing read");
+        kani::cover!(H.cancel_read_calls == 1 && H.produced_n == 2, "cancel lost or partial: two items arrived");
+    }
+}
+fn cr_pec() {
+    unsafe {
+        kani::cover!(H.cancel_read_calls == 0 && mt::L[0].n_delivered == 1 && H.produced_n == 2, "cancel() with a completion already queued");
+    }
+}
+fn cr_pep() {
+    unsafe {
+        kani::cover!(mt::L[0].n_delivered == 1 && H.produced_n == 3, "blocked read completed by an event");
+        kani::cover!(mt::L[0].n_delivered == 1 && H.produced_n == 0 && H.writer_dropped, "blocked read: writer went away");
+    }
+}
+fn cr_pd() {
+    unsafe {
+        kani::cover!(H.cancel_read_calls == 1 && H.produced_n == 2, "dropped mid-flight, two items had arrived: they are dropped with the future");
+        kani::cover!(H.cancel_read_calls == 1 && H.produced_n == 0, "dropped mid-flight, cancelled");
+    }
+}
+fn cr_ped() {
+    unsafe {
+        kani::cover!(H.cancel_read_calls == 0 && mt::L[0].n_delivered == 1 && H.produced_n == 1, "dropped with a completion queued");
+    }
+}
+
+c19r!(c19_read_u8_pc, u8, 3, [P C], cr_pc);
+c19r!(c19_read_u8_pec, u8, 3, [P E C], cr_pec);
+c19r!(c19_read_u8_pep, u8, 3, [P E P], cr_pep);
+c19r!(c19_read_u8_pd, u8, 3, [P], cr_pd);
+c19r!(c19_read_u8_ped, u8, 3, [P E], cr_ped);
+c19r!(c19_read_val_pc, Val, 3, [P C], cr_pc);
+c19r!(c19_read_val_pep, Val, 3, [P E P], cr_pep);
+c19r!(c19_read_val_pd, Val, 3, [P], cr_pd);
+c19r!(c19_deep_read_val_pec, Val, 3, [P E C], cr_pec);
+c19r!(c19_deep_read_val_ped, Val, 3, [P E], cr_ped);
+
+// ---- next / collect ------------------------------------------------------------------
+
+#[kani::proof]
+#[kani::unwind(5)]
+#[kani::stub(wit_bindgen::rt::async_support::cabi::wasip3_task_set, crate::mock_task::stub_task_set)]
+fn c19_next_u8() {
+    unsafe {
+        let mut t1 = mt::new_v1_a();
+        let mut t2 = mt::new_v2_a();
+        install_task(&mut t1, &mut t2);
+        let mut cx = Context::from_waker(Waker::noop());
+        let handles = h_new();
+        let mut rx = RawStreamReader::new(handles as u32, OpsU8);
+        let mut out: Option<Option<u8>> = None;
+        {
+            let mut f = pin!(rx.next());
+            drive!(f, cx, out, read_event; R);
+            if out.is_none() {
+                if let Poll::Ready(v) = f.as_mut().poll(&mut cx) {
+                    out = Some(v);
+                }
+            }
+        }
+        drop(rx);
+        if let Some(r) = out {
+            match r {
+                Some(v) => assert!(v == R0 && H.produced_n == 1, "next() yields an item the host did not produce"),
+                None => assert!(H.produced_n == 0 && H.writer_dropped, "next() yields None although the writer is still there"),
+            }
+        }
+        finish_read::<u8>(0);
+        kani::cover!(out == Some(Some(R0)) && mt::L[0].n_delivered == 1, "item after blocking");
+        kani::cover!(out == Some(None), "end of stream");
+    }
+}
